@@ -372,6 +372,22 @@ gen_c14 (gen_t *g, rng_t *r, scenario_t *sc, int tier)
 	    gen_clip (g, img, 0);
 	    gen_composite (g, 1, src, -1, dst);
 	}
+	else if (roll == 41)
+	{
+	    /* the "in use as an alpha map" bookkeeping: a map is attached, re-attached at another origin,
+	     * released by detaching or by the owner's death - and must then accept a map of its own */
+	    int map = 6 + (int)rng_n (r, 2), other = map == 6 ? 7 : 6;
+	    if (g->s[src].used && g->s[src].kind == MOP_BITS && g->s[map].used && g->s[other].used)
+	    {
+		gen_alpha_map (g, src, map);
+		gen_composite (g, 1, src, -1, dst);
+		if (rng_chance (r, 1, 2)) gen_alpha_map (g, src, map);
+		if (rng_chance (r, 1, 2)) gen_alpha_map (g, src, -1); else gen_unref (g, src);
+		gen_alpha_map (g, map, other);
+		gen_composite (g, 1, map, -1, dst);
+		gen_alpha_map (g, map, -1);
+	    }
+	}
 	else if (roll < 42) gen_transform (g, any, TC_ANY);
 	else if (roll < 52) gen_filter (g, any, 1);
 	else if (roll < 60) gen_repeat (g, any);
